@@ -963,6 +963,13 @@ func c02ErrorEnvelope(c *Ctx) {
 					case *ssa.Call:
 						if ir.CallName(y) == "encoding/json.Marshal" {
 							visit(y, d+1)
+						} else if sc := ir.StaticCallee(y); sc != nil && c.P.IsLib(sc) && clientSide(c, sc) && isRaw(v.Type()) && d < 6 {
+							// handed to a helper that delivers it (deliverResponse(id, &msg)): continue in the helper
+							for ai, a := range y.Call.Args {
+								if a == v && ai < len(sc.Params) {
+									visit(sc.Params[ai], d+1)
+								}
+							}
 						}
 					case *ssa.Store:
 						if y.Val == v {
